@@ -1,6 +1,33 @@
 package main
 
+// C19: dual-contouring meshes (render/dc) are closed, oriented outward, near the surface and
+// identical on repeated runs.
+//
+//  gen   harness/dctab: the dc tables, code-embedded index patterns and the determinism scan of
+//        the CURRENT source -> coq/Generated/DCTables.v
+//  run   (a) sign grids: lattice fields realising arbitrary sign assignments are rendered by the
+//            real V1/V2 code (through the hooks: index buffer / cell triples); the Gallina models
+//            coq/Algo/DCModel.v (v1_mesh, v2_mesh) are evaluated on the same grids inside coqc
+//            and must give the same triangle list, in the same order;
+//        (b) analytic shapes through the public Render methods: directed-edge balance after
+//            identifying coincident vertices, signed volume, vertex containment / distance to the
+//            surface, run-to-run identity.
+
 import (
+	"encoding/json"
+	"fmt"
+	"io"
+	"log"
+	"math"
+	"math/big"
+	"os"
+	"path/filepath"
+	"strings"
+
+	"github.com/deadsy/sdfx/render/dc"
+	"github.com/deadsy/sdfx/sdf"
+	v3 "github.com/deadsy/sdfx/vec/v3"
+	"github.com/deadsy/sdfx/vec/v3i"
 	"verifharness/dctab"
 	. "verifharness/kit"
 )
@@ -9,4 +36,722 @@ func main() {
 	Main("C19", check, func(c *Ctx) (string, []byte, error) { return dctab.Gen(c.Repo) })
 }
 
-func check(c *Ctx, r *Report) error { return nil }
+// ---------------------------------------------------------------- lattice fields
+
+// gridField is a continuous field on the box [0,nx]x[0,ny]x[0,nz]: trilinear interpolation of the
+// values at the integer lattice points (|value| in [1/4,1], sign = the sign grid), +1 outside.
+type gridField struct {
+	n     [3]int
+	val   []float64 // (nx+1)(ny+1)(nz+1), x-major
+	evals int
+}
+
+func (g *gridField) at(x, y, z int) float64 {
+	if x < 0 || y < 0 || z < 0 || x > g.n[0] || y > g.n[1] || z > g.n[2] {
+		return 1
+	}
+	return g.val[(x*(g.n[1]+1)+y)*(g.n[2]+1)+z]
+}
+func (g *gridField) Evaluate(p v3.Vec) float64 {
+	g.evals++
+	fx, fy, fz := math.Floor(p.X), math.Floor(p.Y), math.Floor(p.Z)
+	x, y, z := int(fx), int(fy), int(fz)
+	tx, ty, tz := p.X-fx, p.Y-fy, p.Z-fz
+	lerp := func(a, b, t float64) float64 { return a + (b-a)*t }
+	c00 := lerp(g.at(x, y, z), g.at(x+1, y, z), tx)
+	c10 := lerp(g.at(x, y+1, z), g.at(x+1, y+1, z), tx)
+	c01 := lerp(g.at(x, y, z+1), g.at(x+1, y, z+1), tx)
+	c11 := lerp(g.at(x, y+1, z+1), g.at(x+1, y+1, z+1), tx)
+	return lerp(lerp(c00, c10, ty), lerp(c01, c11, ty), tz)
+}
+func (g *gridField) BoundingBox() sdf.Box3 {
+	return sdf.Box3{Min: v3.Vec{}, Max: v3.Vec{X: float64(g.n[0]), Y: float64(g.n[1]), Z: float64(g.n[2])}}
+}
+
+type signGrid struct {
+	N     [3]int `json:"n"`
+	Solid []int  `json:"solid"` // indices (x-major over the (n+1)^3 points) of solid points
+}
+
+func (sg signGrid) npoints() int { return (sg.N[0] + 1) * (sg.N[1] + 1) * (sg.N[2] + 1) }
+func (sg signGrid) bits() *big.Int {
+	b := new(big.Int)
+	for _, i := range sg.Solid {
+		b.SetBit(b, i, 1)
+	}
+	return b
+}
+func (sg signGrid) key() string {
+	return fmt.Sprintf("%dx%dx%d:%s", sg.N[0], sg.N[1], sg.N[2], sg.bits().Text(62))
+}
+func (sg signGrid) idx(x, y, z int) int { return (x*(sg.N[1]+1)+y)*(sg.N[2]+1) + z }
+func (sg signGrid) onBoundary(i int) bool {
+	z := i % (sg.N[2] + 1)
+	y := (i / (sg.N[2] + 1)) % (sg.N[1] + 1)
+	x := i / ((sg.N[2] + 1) * (sg.N[1] + 1))
+	return x == 0 || y == 0 || z == 0 || x == sg.N[0] || y == sg.N[1] || z == sg.N[2]
+}
+func (sg signGrid) boundaryOutside() bool {
+	for _, i := range sg.Solid {
+		if sg.onBoundary(i) {
+			return false
+		}
+	}
+	return true
+}
+func (sg signGrid) field(rng *Rng) *gridField {
+	g := &gridField{n: sg.N, val: make([]float64, sg.npoints())}
+	for i := range g.val {
+		g.val[i] = 0.25 + 0.75*float64(rng.Intn(4))/4 // 0.25, 0.4375, 0.625, 0.8125 (dyadic)
+	}
+	for _, i := range sg.Solid {
+		g.val[i] = -g.val[i]
+	}
+	return g
+}
+
+// genGrid draws a sign grid of the named stratum.
+func genGrid(rng *Rng, n [3]int, stratum string) signGrid {
+	sg := signGrid{N: n}
+	set := map[int]bool{}
+	interior := func() (int, int, int) {
+		return rng.Range(1, maxi(1, n[0]-1)), rng.Range(1, maxi(1, n[1]-1)), rng.Range(1, maxi(1, n[2]-1))
+	}
+	hasInterior := n[0] >= 2 && n[1] >= 2 && n[2] >= 2
+	switch stratum {
+	case "empty":
+	case "single-point":
+		if hasInterior {
+			x, y, z := interior()
+			set[sg.idx(x, y, z)] = true
+		}
+	case "dense", "sparse", "half":
+		p := map[string]int{"dense": 85, "sparse": 15, "half": 50}[stratum]
+		for x := 1; x < n[0]; x++ {
+			for y := 1; y < n[1]; y++ {
+				for z := 1; z < n[2]; z++ {
+					if rng.Intn(100) < p {
+						set[sg.idx(x, y, z)] = true
+					}
+				}
+			}
+		}
+	case "full-interior":
+		for x := 1; x < n[0]; x++ {
+			for y := 1; y < n[1]; y++ {
+				for z := 1; z < n[2]; z++ {
+					set[sg.idx(x, y, z)] = true
+				}
+			}
+		}
+	case "checker":
+		for x := 1; x < n[0]; x++ {
+			for y := 1; y < n[1]; y++ {
+				for z := 1; z < n[2]; z++ {
+					if (x+y+z)%2 == 0 {
+						set[sg.idx(x, y, z)] = true
+					}
+				}
+			}
+		}
+	case "boxes":
+		if hasInterior {
+			for k := rng.Range(1, 3); k > 0; k-- {
+				x0, y0, z0 := interior()
+				x1, y1, z1 := interior()
+				for x := mini(x0, x1); x <= maxi(x0, x1); x++ {
+					for y := mini(y0, y1); y <= maxi(y0, y1); y++ {
+						for z := mini(z0, z1); z <= maxi(z0, z1); z++ {
+							set[sg.idx(x, y, z)] = true
+						}
+					}
+				}
+			}
+		}
+	case "boundary-solid": // outside the class of the property: correspondence only
+		for i := 0; i < sg.npoints(); i++ {
+			if rng.Intn(100) < 40 {
+				set[i] = true
+			}
+		}
+	}
+	for i := 0; i < sg.npoints(); i++ {
+		if set[i] {
+			sg.Solid = append(sg.Solid, i)
+		}
+	}
+	return sg
+}
+
+func mini(a, b int) int {
+	if a < b {
+		return a
+	}
+	return b
+}
+func maxi(a, b int) int {
+	if a > b {
+		return a
+	}
+	return b
+}
+
+type itri [3]v3i.Vec
+
+func cellTerm(c v3i.Vec) string { return fmt.Sprintf("(%s,%s,%s)", CZ(c.X), CZ(c.Y), CZ(c.Z)) }
+func trisTerm(ts []itri) string {
+	xs := make([]string, len(ts))
+	for i, t := range ts {
+		xs[i] = "(" + cellTerm(t[0]) + "," + cellTerm(t[1]) + "," + cellTerm(t[2]) + ")"
+	}
+	return CList(xs)
+}
+
+// unbalanced returns a description of the first directed edge without matching reverse (index space).
+func unbalancedI(ts []itri) string {
+	cnt := map[[2]v3i.Vec]int{}
+	for _, t := range ts {
+		for k := 0; k < 3; k++ {
+			cnt[[2]v3i.Vec{t[k], t[(k+1)%3]}]++
+		}
+	}
+	bad, n := "", 0
+	for e, c := range cnt {
+		if cnt[[2]v3i.Vec{e[1], e[0]}] != c {
+			n++
+			s := fmt.Sprintf("%v->%v x%d (reverse x%d)", e[0], e[1], c, cnt[[2]v3i.Vec{e[1], e[0]}])
+			if bad == "" || s < bad {
+				bad = s
+			}
+		}
+	}
+	if n == 0 {
+		return ""
+	}
+	return fmt.Sprintf("%d unbalanced directed edges, e.g. %s", n, bad)
+}
+
+func signedVolumeI(ts []itri) float64 {
+	v := 0.0
+	for _, t := range ts {
+		a := v3.Vec{X: float64(t[0].X), Y: float64(t[0].Y), Z: float64(t[0].Z)}
+		b := v3.Vec{X: float64(t[1].X), Y: float64(t[1].Y), Z: float64(t[1].Z)}
+		c := v3.Vec{X: float64(t[2].X), Y: float64(t[2].Y), Z: float64(t[2].Z)}
+		v += a.Dot(b.Cross(c)) / 6
+	}
+	return v
+}
+
+// ---------------------------------------------------------------- analytic shapes
+
+// wrapped gives a shape an enlarged bounding box, so that its surface is strictly inside the sampled volume.
+type wrapped struct {
+	s  sdf.SDF3
+	bb sdf.Box3
+}
+
+func (w *wrapped) Evaluate(p v3.Vec) float64 { return w.s.Evaluate(p) }
+func (w *wrapped) BoundingBox() sdf.Box3     { return w.bb }
+
+type shapeSpec struct {
+	Name   string     `json:"name"`
+	Margin [6]float64 `json:"margin"` // enlargement of the tight box, fractions of its size: -x,-y,-z,+x,+y,+z
+	Params []float64  `json:"params"`
+}
+
+func buildShape(sp shapeSpec) (sdf.SDF3, bool, error) {
+	p := func(i int, d float64) float64 {
+		if i < len(sp.Params) {
+			return sp.Params[i]
+		}
+		return d
+	}
+	var s sdf.SDF3
+	var err error
+	exact := true
+	switch sp.Name {
+	case "sphere":
+		s, err = sdf.Sphere3D(p(0, 1))
+		if err == nil {
+			s = sdf.Transform3D(s, sdf.Translate3d(v3.Vec{X: p(1, 0.1), Y: p(2, -0.07), Z: p(3, 0.03)}))
+		}
+	case "box":
+		s, err = sdf.Box3D(v3.Vec{X: p(0, 2), Y: p(1, 1.5), Z: p(2, 1)}, 0)
+	case "rotbox":
+		s, err = sdf.Box3D(v3.Vec{X: p(0, 2), Y: p(1, 1.5), Z: p(2, 1)}, 0)
+		if err == nil {
+			m := sdf.RotateX(p(3, 0.5)).Mul(sdf.RotateZ(p(4, 0.7))).Mul(sdf.RotateY(p(5, 0.3)))
+			s = sdf.Transform3D(s, m)
+		}
+	case "roundbox":
+		s, err = sdf.Box3D(v3.Vec{X: p(0, 2), Y: p(1, 1.5), Z: p(2, 1)}, p(3, 0.3))
+	case "difference": // box minus sphere at a corner: concave sharp edges; a lower bound of the distance
+		var b, sp2 sdf.SDF3
+		b, err = sdf.Box3D(v3.Vec{X: p(0, 2), Y: p(1, 2), Z: p(2, 2)}, 0)
+		if err == nil {
+			sp2, err = sdf.Sphere3D(p(3, 0.9))
+		}
+		if err == nil {
+			sp2 = sdf.Transform3D(sp2, sdf.Translate3d(v3.Vec{X: 1, Y: 1, Z: 1}))
+			s = sdf.Difference3D(b, sp2)
+			exact = false
+		}
+	case "cylinder-hole": // cylinder minus a coaxial thinner cylinder cut half way: CSG with curved + flat faces
+		var a, b sdf.SDF3
+		a, err = sdf.Cylinder3D(p(0, 2), p(1, 1), 0)
+		if err == nil {
+			b, err = sdf.Cylinder3D(p(0, 2), p(2, 0.45), 0)
+		}
+		if err == nil {
+			b = sdf.Transform3D(b, sdf.Translate3d(v3.Vec{Z: p(0, 2) / 2}))
+			s = sdf.Difference3D(a, b)
+			exact = false
+		}
+	case "union": // two overlapping spheres
+		var a, b sdf.SDF3
+		a, err = sdf.Sphere3D(p(0, 1))
+		if err == nil {
+			b, err = sdf.Sphere3D(p(1, 0.7))
+		}
+		if err == nil {
+			b = sdf.Transform3D(b, sdf.Translate3d(v3.Vec{X: p(2, 1.1), Y: 0.2}))
+			s = sdf.Union3D(a, b)
+			exact = false
+		}
+	default:
+		return nil, false, fmt.Errorf("unknown shape %q", sp.Name)
+	}
+	if err != nil {
+		return nil, false, err
+	}
+	bb := s.BoundingBox()
+	sz := bb.Size()
+	w := &wrapped{s: s, bb: sdf.Box3{
+		Min: v3.Vec{X: bb.Min.X - sp.Margin[0]*sz.X, Y: bb.Min.Y - sp.Margin[1]*sz.Y, Z: bb.Min.Z - sp.Margin[2]*sz.Z},
+		Max: v3.Vec{X: bb.Max.X + sp.Margin[3]*sz.X, Y: bb.Max.Y + sp.Margin[4]*sz.Y, Z: bb.Max.Z + sp.Margin[5]*sz.Z}}}
+	return w, exact, nil
+}
+
+type renderSpec struct {
+	Shape    shapeSpec `json:"shape"`
+	Renderer string    `json:"renderer"` // "v1" | "v2"
+	Cells    int       `json:"cells"`
+	// v1
+	RCond float64 `json:"rcond"`
+	// v2
+	FarAway    float64 `json:"far_away"`
+	CenterPush float64 `json:"center_push"`
+}
+
+func (rs renderSpec) key() string {
+	b, _ := json.Marshal(rs)
+	return "render:" + string(b)
+}
+
+func renderV1(s sdf.SDF3, rs renderSpec) []sdf.Triangle3 {
+	r := dc.NewDualContouringV1(-1, rs.RCond, true)
+	ch := make(chan *sdf.Triangle3, 1024)
+	var out []sdf.Triangle3
+	done := make(chan struct{})
+	go func() {
+		for t := range ch {
+			out = append(out, *t)
+		}
+		close(done)
+	}()
+	r.Render(s, rs.Cells, ch)
+	close(ch)
+	<-done
+	return out
+}
+
+func newV2(rs renderSpec) *dc.DualContouringV2 {
+	return dc.NewDualContouringV2(rs.FarAway, rs.CenterPush, 0, 1, 1e-4, 1000, rs.Cells)
+}
+
+func renderV2(s sdf.SDF3, rs renderSpec) []sdf.Triangle3 {
+	r := newV2(rs)
+	ch := make(chan []*sdf.Triangle3, 1024)
+	var out []sdf.Triangle3
+	done := make(chan struct{})
+	go func() {
+		for ts := range ch {
+			for _, t := range ts {
+				out = append(out, *t)
+			}
+		}
+		close(done)
+	}()
+	r.Render(s, ch)
+	close(ch)
+	<-done
+	return out
+}
+
+type vkey [3]uint64
+
+func vk(p v3.Vec) vkey {
+	// identify coincident vertices: equal coordinates (+0 and -0 identified)
+	f := func(x float64) uint64 {
+		if x == 0 {
+			return 0
+		}
+		return math.Float64bits(x)
+	}
+	return vkey{f(p.X), f(p.Y), f(p.Z)}
+}
+
+func sameTriangles(a, b []sdf.Triangle3) (bool, string) {
+	if len(a) != len(b) {
+		return false, fmt.Sprintf("%d triangles in the first run, %d in the second", len(a), len(b))
+	}
+	for i := range a {
+		for k := 0; k < 3; k++ {
+			if vk(a[i][k]) != vk(b[i][k]) && !(isNaNV(a[i][k]) && isNaNV(b[i][k])) {
+				return false, fmt.Sprintf("triangle %d vertex %d: %v in the first run, %v in the second", i, k, a[i][k], b[i][k])
+			}
+		}
+	}
+	return true, ""
+}
+func isNaNV(p v3.Vec) bool { return math.IsNaN(p.X) || math.IsNaN(p.Y) || math.IsNaN(p.Z) }
+func finiteV(p v3.Vec) bool {
+	return !math.IsNaN(p.X+p.Y+p.Z) && !math.IsInf(p.X, 0) && !math.IsInf(p.Y, 0) && !math.IsInf(p.Z, 0)
+}
+
+// lattice describes the sampling lattice of a render: point i is Min + Size*i/Cells per axis.
+type lattice struct {
+	Min, Step v3.Vec
+	Cells     v3i.Vec
+}
+
+func (l lattice) point(i, j, k int) v3.Vec {
+	return v3.Vec{X: l.Min.X + l.Step.X*float64(i), Y: l.Min.Y + l.Step.Y*float64(j), Z: l.Min.Z + l.Step.Z*float64(k)}
+}
+func (l lattice) diag() float64 { return l.Step.Length() }
+
+// inCrossingCell: v lies (within tol cell sizes) in a lattice cell whose corner signs differ.
+func (l lattice) inCrossingCell(s sdf.SDF3, v v3.Vec, tol float64) bool {
+	cand := func(t float64, n int) []int {
+		f := math.Floor(t)
+		c := []int{int(f)}
+		if t-f <= tol {
+			c = append(c, int(f)-1)
+		}
+		if f+1-t <= tol {
+			c = append(c, int(f)+1)
+		}
+		var o []int
+		for _, i := range c {
+			if i >= 0 && i < n {
+				o = append(o, i)
+			}
+		}
+		return o
+	}
+	xs := cand((v.X-l.Min.X)/l.Step.X, l.Cells.X)
+	ys := cand((v.Y-l.Min.Y)/l.Step.Y, l.Cells.Y)
+	zs := cand((v.Z-l.Min.Z)/l.Step.Z, l.Cells.Z)
+	for _, i := range xs {
+		for _, j := range ys {
+			for _, k := range zs {
+				neg, pos := 0, 0
+				for c := 0; c < 8; c++ {
+					if s.Evaluate(l.point(i+c>>2&1, j+c>>1&1, k+c&1)) < 0 {
+						neg++
+					} else {
+						pos++
+					}
+				}
+				if neg > 0 && pos > 0 {
+					return true
+				}
+			}
+		}
+	}
+	return false
+}
+
+func checkRender(r *Report, stratum string, rs renderSpec) {
+	key := rs.key()
+	s, exact, err := buildShape(rs.Shape)
+	if err != nil {
+		r.Violate(key, "harness: cannot build shape: "+err.Error(), rs)
+		return
+	}
+	var t1, t2 []sdf.Triangle3
+	var lat lattice
+	bb := s.BoundingBox()
+	switch rs.Renderer {
+	case "v1":
+		t1 = renderV1(s, rs)
+		t2 = renderV1(s, rs)
+		m := dc.VerifV1Buffers(dc.NewDualContouringV1(-1, rs.RCond, true), s, rs.Cells)
+		o := dc.VerifV1LatticePoint(dc.NewDualContouringV1(-1, rs.RCond, true), s, rs.Cells, v3i.Vec{})
+		e := dc.VerifV1LatticePoint(dc.NewDualContouringV1(-1, rs.RCond, true), s, rs.Cells, m.CellCounts)
+		lat = lattice{Min: o, Cells: m.CellCounts, Step: v3.Vec{X: (e.X - o.X) / float64(m.CellCounts.X), Y: (e.Y - o.Y) / float64(m.CellCounts.Y), Z: (e.Z - o.Z) / float64(m.CellCounts.Z)}}
+		if len(m.Indices) != 3*len(t1) {
+			r.Violate(key, fmt.Sprintf("Render sent %d triangles but the index buffer holds %d indices", len(t1), len(m.Indices)), rs)
+		}
+	case "v2":
+		t1 = renderV2(s, rs)
+		t2 = renderV2(s, rs)
+		m := dc.VerifV2Buffers(newV2(rs), s)
+		lat = lattice{Min: m.BoxMin, Step: m.CellSize, Cells: m.Cells}
+	}
+	r.Case("render/"+stratum, key, len(t1) > 0)
+	if r.Evaluations%17 == 3 {
+		r.Sample(map[string]interface{}{"kind": "render", "spec": rs, "triangles": len(t1), "cells": []int{lat.Cells.X, lat.Cells.Y, lat.Cells.Z}})
+	}
+	if len(t1) == 0 {
+		r.Violate(key, "no triangle at all for a shape whose surface is inside the sampled volume", rs)
+		return
+	}
+	// identical on repeated runs
+	if ok, why := sameTriangles(t1, t2); !ok {
+		r.Violate(key, "two runs differ: "+why, rs)
+	}
+	// vertices: finite, inside the sampled box, inside a crossing cell, within one cell diagonal of the surface
+	diag := lat.diag()
+	tol := 1e-9
+	seen := map[vkey]bool{}
+	for ti, t := range t1 {
+		for k := 0; k < 3; k++ {
+			v := t[k]
+			if seen[vk(v)] {
+				continue
+			}
+			seen[vk(v)] = true
+			if !finiteV(v) {
+				r.Violate(key, fmt.Sprintf("triangle %d has a non-finite vertex %v", ti, v), rs)
+				return
+			}
+			sz := bb.Size()
+			if v.X < bb.Min.X-tol*sz.X || v.Y < bb.Min.Y-tol*sz.Y || v.Z < bb.Min.Z-tol*sz.Z ||
+				v.X > bb.Max.X+tol*sz.X || v.Y > bb.Max.Y+tol*sz.Y || v.Z > bb.Max.Z+tol*sz.Z {
+				r.Violate(key, fmt.Sprintf("vertex %v of triangle %d is outside the sampled box %v", v, ti, bb), rs)
+				return
+			}
+			if d := math.Abs(s.Evaluate(v)); d > diag*(1+1e-9) {
+				r.Violate(key, fmt.Sprintf("vertex %v of triangle %d: |f| = %g exceeds one cell diagonal %g (exact sdf: %v)", v, ti, d, diag, exact), rs)
+				return
+			}
+			if !lat.inCrossingCell(s, v, 1e-6) {
+				r.Violate(key, fmt.Sprintf("vertex %v of triangle %d lies in no lattice cell with a sign change (cell size %v)", v, ti, lat.Step), rs)
+				return
+			}
+		}
+	}
+	// closed after identifying coincident vertices
+	cnt := map[[2]vkey]int{}
+	for _, t := range t1 {
+		for k := 0; k < 3; k++ {
+			cnt[[2]vkey{vk(t[k]), vk(t[(k+1)%3])}]++
+		}
+	}
+	nbad := 0
+	for e, c := range cnt {
+		if cnt[[2]vkey{e[1], e[0]}] != c {
+			nbad++
+		}
+	}
+	if nbad > 0 {
+		r.Violate(key, fmt.Sprintf("mesh not closed: %d directed edges (of %d) without matching reverse after identifying coincident vertices; %d triangles", nbad, len(cnt), len(t1)), rs)
+	}
+	// oriented outward: positive enclosed volume
+	vol := 0.0
+	c0 := bb.Center()
+	for _, t := range t1 {
+		vol += t[0].Sub(c0).Dot(t[1].Sub(c0).Cross(t[2].Sub(c0))) / 6
+	}
+	if !(vol > 0) {
+		r.Violate(key, fmt.Sprintf("signed volume %g is not positive (%d triangles)", vol, len(t1)), rs)
+	}
+}
+
+// ---------------------------------------------------------------- corpus
+
+type corpus struct {
+	GridsV1 []signGrid   `json:"grids_v1"`
+	GridsV2 []signGrid   `json:"grids_v2"`
+	Renders []renderSpec `json:"renders"`
+}
+
+func log2(n int) int {
+	d := 0
+	for 1<<d < n {
+		d++
+	}
+	return d
+}
+
+func check(c *Ctx, r *Report) error {
+	log.SetOutput(io.Discard) // the renderers print warnings
+	rng := NewRng(c.Seed)
+	var cp corpus
+	if b, err := os.ReadFile(filepath.Join(c.Verif, "corpus", "C19.json")); err == nil {
+		if err := json.Unmarshal(b, &cp); err != nil {
+			return fmt.Errorf("corpus/C19.json: %v", err)
+		}
+	}
+	// the translator's view of the source, for the evidence
+	if t, err := dctab.Parse(c.Repo); err != nil {
+		return err
+	} else {
+		n := 0
+		for _, v := range t.Scan {
+			n += len(v)
+		}
+		r.Coverage["translated_tables"] = t.Names
+		r.Coverage["determinism_scan_files"] = t.Files
+		r.Coverage["determinism_scan_findings"] = n
+	}
+	imports := "From Sdfx Require Import Algo.DualGrid Algo.DCModel.\nOpen Scope Z_scope."
+	cs1 := &Cases{Kind: "v1", Imports: imports, Type: "DCModel.case1", Fn: "DCModel.mismatches1", PerShard: 40}
+	cs2 := &Cases{Kind: "v2", Imports: imports, Type: "DCModel.case2", Fn: "DCModel.mismatches2", PerShard: 60}
+	id := 0
+
+	v2Grid := func(stratum string, sg signGrid) {
+		id++
+		g := sg.field(rng)
+		mc := maxi(sg.N[0], maxi(sg.N[1], sg.N[2]))
+		m := dc.VerifV2Buffers(dc.NewDualContouringV2(0.499999, 0.01, 0, 1, 1e-4, 200, mc), g)
+		key := "v2grid:" + sg.key()
+		if m.Cells.X != sg.N[0] || m.Cells.Y != sg.N[1] || m.Cells.Z != sg.N[2] {
+			r.Violate(key, fmt.Sprintf("harness: getCells gives %v for the %v lattice field", m.Cells, sg.N), sg)
+			return
+		}
+		ts := make([]itri, len(m.Triangles))
+		for i, t := range m.Triangles {
+			ts[i] = itri(t)
+		}
+		cs2.Add(fmt.Sprintf("(%d%%N, (%d,%d,%d), %s%%N, %s)", id, sg.N[0], sg.N[1], sg.N[2], sg.bits().String(), trisTerm(ts)))
+		r.Case("v2-grid/"+stratum, key, len(ts) > 0)
+		if id%41 == 1 {
+			r.Sample(map[string]interface{}{"kind": "v2-grid", "n": sg.N, "solid_points": len(sg.Solid), "triangles": len(ts)})
+		}
+		if sg.boundaryOutside() {
+			if why := unbalancedI(ts); why != "" {
+				r.Violate(key, "V2 index triangles not closed on a sign grid with outside boundary: "+why, sg)
+			} else if len(ts) > 0 && !(signedVolumeI(ts) > 0) {
+				r.Violate(key, fmt.Sprintf("V2 index triangles enclose signed volume %g (cell units), not positive", signedVolumeI(ts)), sg)
+			}
+		}
+	}
+	v1Grid := func(stratum string, sg signGrid) {
+		id++
+		g := sg.field(rng)
+		d := log2(sg.N[0])
+		m := dc.VerifV1Buffers(dc.NewDualContouringV1(-1, 0, true), g, sg.N[0])
+		key := "v1grid:" + sg.key()
+		if m.CellCounts.X != sg.N[0] || m.CellCounts.Y != sg.N[0] || m.CellCounts.Z != sg.N[0] || m.MeshSize != sg.N[0] {
+			r.Violate(key, fmt.Sprintf("harness: octree of %v cells (size %d) for the %v lattice field", m.CellCounts, m.MeshSize, sg.N), sg)
+			return
+		}
+		var ts []itri
+		for i := 0; i+2 < len(m.Indices); i += 3 {
+			ts = append(ts, itri{m.Cells[m.Indices[i]], m.Cells[m.Indices[i+1]], m.Cells[m.Indices[i+2]]})
+		}
+		cs1.Add(fmt.Sprintf("(%d%%N, %d%%nat, %s%%N, %s)", id, d, sg.bits().String(), trisTerm(ts)))
+		r.Case("v1-grid/"+stratum, key, len(ts) > 0)
+		if id%41 == 2 {
+			r.Sample(map[string]interface{}{"kind": "v1-grid", "depth": d, "solid_points": len(sg.Solid), "triangles": len(ts)})
+		}
+		if sg.boundaryOutside() {
+			if why := unbalancedI(ts); why != "" {
+				r.Violate(key, "V1 index triangles not closed on a sign grid with outside boundary: "+why, sg)
+			} else if len(ts) > 0 && !(signedVolumeI(ts) > 0) {
+				r.Violate(key, fmt.Sprintf("V1 index triangles enclose signed volume %g (cell units), not positive", signedVolumeI(ts)), sg)
+			}
+		}
+	}
+
+	for _, sg := range cp.GridsV2 {
+		v2Grid("corpus", sg)
+	}
+	for _, sg := range cp.GridsV1 {
+		v1Grid("corpus", sg)
+	}
+	strata := []string{"empty", "single-point", "sparse", "half", "dense", "full-interior", "checker", "boxes", "boundary-solid"}
+	n2 := TierN(c.Tier, 180, 3000, 700)
+	for k := 0; k < n2; k++ {
+		var n [3]int
+		switch k % 4 {
+		case 0:
+			n = [3]int{rng.Range(1, 3), rng.Range(1, 3), rng.Range(1, 3)}
+		case 1:
+			n = [3]int{rng.Range(2, 4), rng.Range(2, 4), rng.Range(2, 4)}
+		case 2:
+			n = [3]int{rng.Range(3, 6), rng.Range(3, 6), rng.Range(3, 6)}
+		default:
+			n = [3]int{rng.Range(2, 7), rng.Range(2, 5), rng.Range(2, 4)}
+		}
+		st := strata[k%len(strata)]
+		v2Grid(st, genGrid(rng, n, st))
+	}
+	n1 := TierN(c.Tier, 120, 2000, 500)
+	for k := 0; k < n1; k++ {
+		d := 1 + k%3
+		if c.Tier != "quick" && k%10 == 9 {
+			d = 4
+		}
+		st := strata[(k/3)%len(strata)]
+		v1Grid(st, genGrid(rng, [3]int{1 << d, 1 << d, 1 << d}, st))
+	}
+	if err := cs1.Write(c.Out); err != nil {
+		return err
+	}
+	if err := cs2.Write(c.Out); err != nil {
+		return err
+	}
+
+	// ---- analytic shapes through the public Render methods
+	for _, rs := range cp.Renders {
+		checkRender(r, "corpus", rs)
+	}
+	shapes := []string{"sphere", "rotbox", "difference", "box", "roundbox", "cylinder-hole", "union"}
+	nr := TierN(c.Tier, 36, 400, 120)
+	for k := 0; k < nr; k++ {
+		name := shapes[k%len(shapes)]
+		sp := shapeSpec{Name: name}
+		for i := range sp.Margin {
+			sp.Margin[i] = 0.08 + 0.3*float64(rng.Intn(8))/8
+		}
+		switch name {
+		case "sphere":
+			sp.Params = []float64{0.6 + rng.Float(), rng.Uniform(-0.2, 0.2), rng.Uniform(-0.2, 0.2), rng.Uniform(-0.2, 0.2)}
+		case "rotbox":
+			sp.Params = []float64{1 + rng.Float(), 1 + rng.Float(), 0.7 + rng.Float(), rng.Uniform(0, 3), rng.Uniform(0, 3), rng.Uniform(0, 3)}
+		case "box", "roundbox":
+			sp.Params = []float64{1 + rng.Float(), 1 + rng.Float(), 0.7 + rng.Float(), 0.1 + 0.2*rng.Float()}
+		}
+		rs := renderSpec{Shape: sp}
+		cellsChoices := []int{6, 8, 11, 16, 20, 27}
+		if c.Tier != "quick" {
+			cellsChoices = append(cellsChoices, 32, 40)
+		}
+		rs.Cells = cellsChoices[rng.Intn(len(cellsChoices))]
+		if (k/len(shapes))%2 == 0 {
+			rs.Renderer = "v1"
+			rs.RCond = []float64{0, 1e-3, 0.1}[rng.Intn(3)]
+		} else {
+			rs.Renderer = "v2"
+			rs.FarAway = []float64{0.499999, 0.25, 0.5, 0.4}[rng.Intn(4)]
+			rs.CenterPush = []float64{0.01, 0.1, 1}[rng.Intn(3)]
+		}
+		checkRender(r, rs.Renderer+"/"+name, rs)
+	}
+
+	r.Rule = "grid cases: sign assignments on small lattices (V2: 1..7 cells per axis, V1: octree depth 1..3, 4 in the long tiers) in strata empty / single solid point / sparse / half / dense / full interior / checkerboard / union of boxes (all with outside boundary) and boundary-solid (outside the class, correspondence only), realised by a trilinear lattice field and rendered by the real code; the triangle list in cell indices is compared, in order, with the Gallina model evaluated on the same grid; non-trivial = at least one triangle, distinct by (lattice size, sign bits). render cases: sphere, box, rotated box, rounded box, box minus sphere, cylinder minus cylinder, union of spheres, each in an asymmetrically enlarged box, 6..27 (40) cells, V1 (lock on, no simplification, three rcond values) and V2 (FarAway in {0.25,0.4,0.499999,0.5}, CenterPush in {0.01,0.1,1}); non-trivial = produced triangles, distinct by full parameter record."
+	r.Trusted = append(r.Trusted,
+		"hand models coq/Algo/DCModel.v of generateTriangles and of contourCellProc/FaceProc/EdgeProc/ProcessEdge over the regenerated tables, tied by differential execution on sign grids (cases_v1_*.v, cases_v2_*.v, exact order)",
+		"hooks render/dc/verif_hooks_c19.go (V1: repeat the first lines of Render, then the real generateVertexIndices/contourCellProc; V2: real placeVertices/generateTriangles on a vertex buffer holding cell indices)",
+		"QEF / SVD (gonum), ray cast and bisection are oracles: only the containment of their result is checked (direct oracle on every vertex) and proved for the lock/clamp step",
+		"Go oracles of this harness: directed-edge balance after identifying bit-equal vertices, signed volume, |f(v)| <= cell diagonal, vertex in a lattice cell with a sign change")
+	r.Assumptions = append(r.Assumptions,
+		"the SDF is deterministic and outside (>= 0) on the boundary of the sampled box and beyond (V1 samples the padding of the power-of-two octree outside the box)",
+		"V2 drops both triangles of a quad when two of its vertices coincide exactly (Degenerate(0)); the closedness theorem is about the index mesh, the position mesh is checked by the direct oracle on every render case",
+		"V1 octree traversal: proved equal to the dual mesh for depth <= 3 and every sign assignment, compared with the model at depth 1..4, general depth not proved (v1_traversal_partial)")
+	_ = strings.Join
+	return nil
+}
